@@ -326,9 +326,26 @@ func (c *Ctx) resolve(v ssa.Value, seen map[ssa.Value]bool) ssa.Value {
 		case *ssa.Phi:
 			var first ssa.Value
 			same := true
-			for _, e := range x.Edges {
+			live := feasibleBlocks(x.Parent())
+			for i, e := range x.Edges {
 				if e == ssa.Value(x) {
 					continue
+				}
+				if live != nil && i < len(x.Block().Preds) {
+					// the value arriving over an edge no execution takes (a test of constants) does not count
+					pred := x.Block().Preds[i]
+					if !live[pred] {
+						continue
+					}
+					dead := true
+					for k, sc := range pred.Succs {
+						if sc == x.Block() && !edgeInfeasible(pred, k) {
+							dead = false
+						}
+					}
+					if dead {
+						continue
+					}
 				}
 				s2 := map[ssa.Value]bool{}
 				for k := range seen {
